@@ -16,7 +16,7 @@ CHECKS = {
             'attribute forms are compared with the plain rendering; 20 long-lived compiled variants are re-rendered '
             'with text- and callable-valued parameters, prefix spellings, sparse / edge / nested body layouts, four '
             'sequence forms and five item kinds. A batch variable that renders as anything but a number (e.g. an entity '
-            'reference left as literal text) is a violation.',
+            'reference left as literal text) is a violation. Prefixes include mixed-case names.',
             'Trusted: the window model in checks/c11.py (from the DT_In docstring and the statement); '
             'CPython; parameters <= 0 mean "not given".',
             'DESIGN.md section 4, C11'),
